@@ -656,6 +656,22 @@ let check_rel (x : qobs) input =
             | Some a -> Hashtbl.remove pending (rel ^ "/" ^ g); extra_case := a.line; check_pair rel a x; extra_case := ""
             | None -> ())
        | _ -> ())
+  | Some "C08t" ->
+      (* a quoted value in a position that cannot be rendered (under ~ or ^) or needs no rendering to be judged: it is a plain
+         string leaf of the tree, verbatim, never re-typed from its text *)
+      (match tag_get x.tag "w" with
+       | Some wh ->
+           let w = unhexs wh in
+           if valid_utf8 w && not (is_bad x.o.(1)) then begin
+             checked "C08"; nontrivial "C08";
+             (match tree_of_parse x.o.(1) with
+              | None -> fail "C08" "quoted-value-in-context-rejected" input []
+              | Some t ->
+                  let e = parse_tree t in
+                  if not (List.exists (fun l -> match l with E (VStr s, Literal, _, _, _) -> string_of_chars s = w | _ -> false) (leaves_e e)) then
+                    fail "C08" "quoted-value-not-verbatim-in-tree" input [("tree", t)])
+           end
+       | None -> ())
   | Some "C08c" ->
       (match tag_get x.tag "w" with
        | Some wh ->
@@ -834,7 +850,10 @@ let check_j (doc : string) (o : string array) input =
       let names = [| "String"; "GoString"; "Render"; "RenderParam"; "Marshal" |] in
       for i = 0 to 4 do
         if is_bad o.(3 + i) then fail "C13" ("validated-document-panics:" ^ names.(i)) input [("decoded", o.(1))]
-      done
+      done;
+      (* drivers other than the stock one: a Base over a copy of Shared (README), the zero Base, the zero PostgresDriver *)
+      Array.iteri (fun i nm -> if Array.length o > 8 + i && is_bad o.(8 + i) then fail "C13" ("validated-document-panics:" ^ nm) input [("decoded", o.(1))])
+        [| "Render/RenderParam of a Base over a copy of Shared"; "Render/RenderParam of the zero Base"; "Render/RenderParam of the zero PostgresDriver" |]
     end
   end
 
@@ -848,7 +867,7 @@ let check_d (q : string) (spec : string) (o : string array) input =
   (* model run with the same (pure) tracing functions: Driver.render_tr, the fold the C15 theorems are about, returns the call log *)
   let fns (op : operator) =
     let k = opnum op in
-    if List.mem k !rm then None
+    if List.mem k !rm || contains spec "nil=1" || contains spec "empty=1" then None
     else Some (fun (l : char list) (r : char list) ->
       let name = (if List.mem k !ov then "g" else "f") ^ string_of_int k in
       Ret (chars_of_string (name ^ "<" ^ string_of_chars l ^ "|" ^ string_of_chars r ^ ">"), None)) in
